@@ -105,6 +105,8 @@ STATEFUL = ('stdnum.iban', 'stdnum.be.iban', 'stdnum.es.iban', 'stdnum.no.iban',
             'stdnum.us.ein', 'stdnum.eu.nace', 'stdnum.ch.vat', 'stdnum.de.handelsregisternummer', 'stdnum.eu.oss')
 
 SCHEDULE_PAIRS = [
+    # first use of two different registries, one of them slow to load
+    (ev('mac', 'get_manufacturer', 'D0-50-99-84-A2-A0'), ev('imsi', 'split', '429011234567890')),
     # first use of the look-alike clean-up from two threads
     (ev('isbn', 'validate', '９７８-0-471-11709-4'), ev('ean', 'validate', '７３５１３５３７')),
     (ev('be.iban', 'info', 'BE31435411161155'), ev('be.iban', 'info', 'BE31435411161155')),
@@ -121,6 +123,8 @@ SCHEDULE_PAIRS = [
     (ev('util', 'get_cc_module', 'be', 'vat'), ev('util', 'get_cc_module', 'be', 'iban')),
 ]
 IMPORT_RACE_PAIRS = [
+    # a nationally invalid IBAN (generic rules fine, wrong CCC check digits) while the national module is being imported
+    (ev('iban', 'validate', 'ES7712341234161234567890'), ev('iban', 'is_valid', 'ES1512341234171234567890')),
     (ev('iban', 'validate', 'BE31435411161155'), ev('iban', 'is_valid', 'BE31435411161155')),
     (ev('eu.vat', 'validate', 'XI432525179'), ev('vatin', 'validate', 'GB432525179')),
     (ev('vatin', 'validate', 'DE136695976'), ev('eu.vat', 'is_valid', 'DE136695976')),
@@ -144,6 +148,8 @@ def plan(ctx):
     items += [('intra', i, t) for i in range(16)]
     items += [('gs1-order', i, t) for i in range(8)]
     items += [('steady', i, t) for i in range(16)]
+    items += [('opt-order', i, t) for i in range(8)]
+    items += [('one-vs-all', i, t) for i in range(16)]
     if not quick:
         items += [('focus3', i, t) for i in range(len(F))]
         items += [('sched3', 0, t)]
@@ -363,6 +369,30 @@ def _steady(res, name, events, quick):
     return execs, execs
 
 
+_battery_cache = []
+
+
+def _battery():
+    if not _battery_cache:
+        ai = {str(i): chr(0x660 + i) for i in range(10)}
+        for name in core.modules():
+            sv = seedmod.seeds(name, 1)
+            if not sv:
+                continue
+            s0 = sv[0][0]
+            _battery_cache.append((name, 'validate', (s0,), ()))
+            if any(c.isdigit() for c in s0):
+                _battery_cache.append((name, 'validate', (''.join(ai.get(c, c) for c in s0),), ()))
+    return _battery_cache
+
+
+def _battery_run(first, battery):
+    e4.purge()
+    if first is not None:
+        e4.call(first)
+    return [e4.call(e)[0] for e in battery]
+
+
 def work(item):
     kind, idx, tier = item
     res = Result()
@@ -449,7 +479,9 @@ def work(item):
         if kind == 'sched':
             pair = SCHEDULE_PAIRS[idx]
             bound = 2 if quick else 4
-            execs, outcomes, capped, touch = explore_pair(res, pair, bound, False, 'sched', 3000 if quick else 30000)
+            slow = any(e[0] == 'stdnum.mac' for e in pair)       # oui.dat takes ~0.2 s to load in every execution
+            execs, outcomes, capped, touch = explore_pair(res, pair, 1 if slow else bound, False, 'sched',
+                                                          (60 if slow else 3000) if quick else (600 if slow else 30000))
         else:
             pair = SCHEDULE_PAIRS[0]
             execs, outcomes, capped, touch = explore_pair(res, pair, 2, False, 'sched', 30000, nthreads=3)
@@ -473,20 +505,29 @@ def work(item):
             if j % 16 != idx:
                 continue
             vals = list(dict.fromkeys(v for s_, v in seedmod.seeds(name, 4 if quick else 8)))
-            if len(vals) < 2:
-                continue
+            if name == 'stdnum.mac':
+                vals = vals[:2]         # 4 ms per registry lookup
             fns = ['validate', 'is_valid'] + [f for f in ('format', 'compact', 'split', 'info') if hasattr(m, f)]
             fns += [f for f in sorted(vars(m)) if f.startswith(('get_', 'to_', 'calc_')) and inspect.isfunction(getattr(m, f))
                     and len([p for p in inspect.signature(getattr(m, f)).parameters.values()
                              if p.default is inspect.Parameter.empty]) == 1][:6]
+            if len(vals) < 1:
+                continue
             for fn in fns:
                 for a in vals:
                     for b in vals:
-                        if a == b:
-                            continue
+                        # a == b: the same call repeated (memoised results that the first call damaged)
                         n += 1
                         nt += 1
                         check_history(res, [('call', (name, fn, (a,), ())), ('call', (name, fn, (b,), ()))], kind)
+                if fn not in ('validate', 'is_valid'):
+                    for a in vals[:3]:
+                        for b in vals[:3]:
+                            n += 1
+                            check_history(res, [('call', (name, 'validate', (a,), ())), ('call', (name, fn, (b,), ()))], kind)
+                            n += 1
+                            check_history(res, [('call', (name, fn, (a,), ())), ('call', (name, 'validate', (b,), ())),
+                                                ('call', (name, fn, (a,), ()))], kind)
     elif kind == 'gs1-order':
         # order dependence inside the GS1 codec: one element string per format class (variable-length AI first, no
         # separator, so that padding code runs), all ordered pairs of classes
@@ -566,6 +607,61 @@ def work(item):
                 n0, t0 = _steady(res, name, events, quick)
                 n += n0
                 nt += t0
+    elif kind == 'opt-order':
+        # the same function with different options in sequence (caches keyed too coarsely across alphabets / regions / tables)
+        from ..tables.options import option_sets
+        from .. import e2
+        for j, (name, m0) in enumerate(core.modules().items()):
+            if j % 8 != idx:
+                continue
+            for fn in [f for f in ('validate', 'is_valid', 'format', 'compact', 'calc_check_digit', 'to_country_number', 'to_regional_number',
+                                   'guess_regions') if hasattr(m0, f)]:
+                f0 = getattr(m0, fn)
+                osets = option_sets(name, f0)[0]
+                if len(osets) < 2:
+                    continue
+                evs = []
+                for o in osets[:5]:
+                    try:
+                        vv, _st = e2.valid_set(name, m0, 'quick', nseeds=2, kw={k: v for k, v in o.items() if k in inspect.signature(m0.validate).parameters}, cap=2)
+                    except Exception:
+                        vv = []
+                    if 'alphabet' in o and isinstance(o['alphabet'], str):
+                        al = o['alphabet']
+                        for tail in al:
+                            cand = al[-1] * 2 + al[-2] + al[len(al) // 2] + tail
+                            if e2._accepts(m0, cand, o):
+                                vv = [cand] + list(vv)
+                                break
+                    for v in vv[:2]:
+                        arg = v if not fn.startswith('calc_') else v[:-1]
+                        evs.append((name, fn, (arg,), tuple(sorted(o.items()))))
+                for a in evs:
+                    for b in evs:
+                        n += 1
+                        nt += 1
+                        check_history(res, [('call', a), ('call', b), ('call', a)], kind)
+    elif kind == 'one-vs-all':
+        # import / first-use side effects of one module on all others: after one call into module A a fixed battery of
+        # calls (every module: validate of a seed, and of the seed spelled with Arabic-Indic digits) must answer as it
+        # does in a fresh state
+        battery = _battery()
+        base = _battery_run(None, battery)
+        for j, (name, m0) in enumerate(core.modules().items()):
+            if j % 16 != idx:
+                continue
+            sv = seedmod.seeds(name, 1)
+            if not sv:
+                continue
+            first = (name, 'validate', (sv[0][0],), ())
+            got = _battery_run(first, battery)
+            n += 1
+            nt += 1
+            for e, o1, o2 in zip(battery, base, got):
+                if o1 != o2:
+                    # confirm as a two-step history on a fresh state (the battery itself is not the culprit)
+                    check_history(res, [('call', first), ('call', e)], kind)
+        res['extra']['battery_calls'] = len(battery)
     elif kind == 'crosscheck':
         # pristine-by-purge vs a real fresh interpreter, for the focus events
         import json
